@@ -1,7 +1,7 @@
 import vlib, common
 
-RULE = "3-node raft clusters (real hashicorp/raft over TCP on loopback, RocksDB stores): random adds/bulks, follower stop and restart (log replay), leadership transfers; at every quiescent point all stored tables of all replicas are compared byte for byte, membership proofs (random event, random version) and incremental proofs served by EVERY replica are verified against the snapshots the leader returned, and the current version is compared with the number of accepted events; transfer: the same agreement checks on followers and new nodes brought up by state transfer after log compaction. distinct = (scenario, node, event, version); non-trivial = query version above the event's failwrite: a store write that fails with an I/O error on a running node (the replica must not go on from a half-applied entry)."
-CMDS = ['cluster', 'transfer', 'failwrite']
+RULE = "3-node raft clusters (real hashicorp/raft over TCP on loopback, RocksDB stores): random adds/bulks, follower stop and restart (log replay), leadership transfers; at every quiescent point all stored tables of all replicas are compared byte for byte, membership proofs (random event, random version) and incremental proofs served by EVERY replica are verified against the snapshots the leader returned, and the current version is compared with the number of accepted events; transfer: the same agreement checks on followers and new nodes brought up by state transfer after log compaction. distinct = (scenario, node, event, version); non-trivial = query version above the event's failwrite: a store write that fails with an I/O error on a running node (the replica must not go on from a half-applied entry). transferlive: a follower that stays up while out of the configuration misses a bulk of 1300 events and is brought back by state transfer on the live process; its tables and proofs must equal the other replicas' (findings of the transfer scenarios are filed under C09 and C06)."
+CMDS = ['cluster', 'transfer', 'transferlive', 'failwrite']
 # replicas brought up by state transfer are replicas too: the agreement oracles of `transfer` (tables, proofs, convergence) are this property's
 PREFIXES = ('C06', 'C09:replica-', 'C09:no-convergence', 'C09:follower-cannot-rejoin')
 CASES = {}
